@@ -236,42 +236,47 @@ theorem frame_tags_leafFn {f : Val → Val} (hf : TrLeafFn f) {cd cl : Cls} {x :
 theorem frame_leafFn_of_mem {cfg : Cfg} (hl : LeafTransform cfg) {t : Tr} (ht : t ∈ cfg.tr) : TrLeafFn t.f :=
   ⟨(hl t ht).1, (hl t ht).2.1, (hl t ht).2.2.1, (hl t ht).2.2.2⟩
 
-theorem frame_recordKey {cfg : Cfg} (hl : LeafTransform cfg) (p : Path) (kvs : List (Str × Val)) :
-    ∀ (fs : List Str) (acc : Str), recordKey cfg p (toN0K kvs) fs acc = recordKey cfg p kvs fs acc
-  | [], acc => by simp [recordKey]
+theorem frame_setField (k : Str) (v : Val) : ∀ acc : List (Str × Val),
+    setField k (toN0 v) (toN0K acc) = toN0K (setField k v acc)
+  | [] => rfl
+  | (k', v') :: rest => by
+    simp only [toN0K, setField]
+    by_cases hk : k = k'
+    · simp only [hk, ↓reduceIte, toN0K]
+    · simp only [hk, ↓reduceIte, toN0K, frame_setField k v rest]
+
+theorem frame_recordFields {cfg : Cfg} (hl : LeafTransform cfg) (q : Path) (kvs : List (Str × Val)) :
+    ∀ (fs : List Str) (acc : List (Str × Val)),
+      recordFields cfg q (toN0K kvs) fs (toN0K acc) = toN0K (recordFields cfg q kvs fs acc)
+  | [], acc => by simp [recordFields]
   | f :: fs, acc => by
-    simp only [recordKey, frame_lookup]
+    simp only [recordFields, frame_lookup]
     cases Val.lookup f kvs with
     | none =>
       simp only [Option.map_none]
-      exact frame_recordKey hl p kvs fs acc
+      exact frame_recordFields hl q kvs fs acc
     | some v =>
       simp only [Option.map_some]
-      cases hm : xpathMatchFrom (render p ++ '/' :: f) 0 (cfg.tr.map (·.pat)) with
-      | zero =>
-        simp only [frame_pyStr]
-        exact frame_recordKey hl p kvs fs _
-      | succ i =>
-        simp only
-        cases ht : cfg.tr[i]? with
-        | none => rfl
-        | some t =>
-          simp only
-          rw [frame_commute (frame_leafFn_of_mem hl (List.mem_of_getElem? ht)) v]
-          cases hz : t.f v with
-          | str s => simp only [toN0]; exact frame_recordKey hl p kvs fs _
-          | none => rfl
-          | bool b => rfl
-          | int n => rfl
-          | flt r => rfl
-          | list c xs => rfl
-          | dict c kvs' => rfl
+      rw [frame_commute (tr_leafFn_transformAt hl (q ++ [PSeg.key f])) v, frame_setField]
+      exact frame_recordFields hl q kvs fs _
 
-theorem frame_keyOf {cfg : Cfg} (hl : LeafTransform cfg) (p : Path) (x : Val) : keyOf cfg p (toN0 x) = keyOf cfg p x := by
+theorem frame_fieldsKey : ∀ fs : List (Str × Val), fieldsKey (toN0K fs) = fieldsKey fs
+  | [] => rfl
+  | (k, v) :: rest => by
+    have h := frame_jsonVal (.dict .plain ((k, v) :: rest))
+    simp only [toN0, toN0K, jsonVal] at h
+    simp only [toN0K, fieldsKey, jsonVal]
+    exact h
+
+theorem frame_keyOf {cfg : Cfg} (hl : LeafTransform cfg) (p : Path) (i : Nat) (x : Val) :
+    keyOf cfg p i (toN0 x) = keyOf cfg p i x := by
   have hk : ∀ v : Val, jsonVal (transformAt cfg p (toN0 v)) = jsonVal (transformAt cfg p v) := fun v => by
     rw [frame_commute (tr_leafFn_transformAt hl p) v, frame_jsonVal]
   cases x with
-  | dict c kvs => simp only [toN0, keyOf, frame_recordKey hl]
+  | dict c kvs =>
+    have := frame_recordFields hl (p ++ [PSeg.idx i]) kvs cfg.ck.pats []
+    simp only [toN0K] at this
+    simp only [toN0, keyOf, this, frame_fieldsKey]
   | list c xs =>
     have := hk (.list c xs)
     simp only [toN0] at this ⊢
@@ -282,10 +287,10 @@ theorem frame_keyOf {cfg : Cfg} (hl : LeafTransform cfg) (p : Path) (x : Val) : 
   | flt f => rfl
   | str s => rfl
 
-theorem frame_keysOf {cfg : Cfg} (hl : LeafTransform cfg) (p : Path) : ∀ xs : List Val,
-    keysOf cfg p (toN0L xs) = keysOf cfg p xs
-  | [] => rfl
-  | x :: xs => by simp only [toN0L, keysOf, frame_keyOf hl p x, frame_keysOf hl p xs]
+theorem frame_keysOf {cfg : Cfg} (hl : LeafTransform cfg) (p : Path) : ∀ (i : Nat) (xs : List Val),
+    keysOf cfg p i (toN0L xs) = keysOf cfg p i xs
+  | _, [] => rfl
+  | i, x :: xs => by simp only [toN0L, keysOf, frame_keyOf hl p i x, frame_keysOf hl p (i + 1) xs]
 
 /-- the remaining-lists with converted values -/
 def keMap (l : List KE) : List KE := l.map (fun e => (e.1, e.2.1, toN0 e.2.2))
@@ -498,10 +503,10 @@ theorem frame_sub (cfg : Cfg) (hl : LeafTransform cfg) (cd cl : Cls) (site : Sit
           simp only [hd, if_true]
           exact ih
         · simp only [hd, if_false, frame_keysOf hl]
-          cases hks : keysOf cfg p xs with
+          cases hks : keysOf cfg p 0 xs with
           | error e => exact frame_err _ e
           | ok ks =>
-            cases hko : keysOf cfg p ys with
+            cases hko : keysOf cfg p 0 ys with
             | error e => exact frame_err _ e
             | ok ko =>
               have ih := frame_keyedWalk cfg hl cd cl p (.list .n0 xs) (.list .n0 ys) 0 xs ks (mkEntries 0 ks xs)
